@@ -9,3 +9,4 @@ pub mod targets;
 pub mod defrag_explore;
 pub mod entries;
 pub mod fields;
+pub mod multi;
